@@ -756,15 +756,15 @@ def run(ctx):
     for t in real_trees:
         cases.append({"op": "box", "data": ser(t).hex(), "origin": "real-shrunk"})
         cases.append({"op": "store", "data": ser(t).hex(), "origin": "real-shrunk"})
-    for _ in range(30 if q else 300):
+    for _ in range(30 if q else 200):
         t = rng.choice(real_trees)
         m, post, w = mutate(rng, t)
         cases.append({"op": "box", "data": post(ser(m)).hex(), "origin": "real-mutant:" + w})
-    for _ in range(50 if q else 600):
+    for _ in range(50 if q else 400):
         b, w = store_mutant(rng, rng.choice(real_trees))
         cases.append({"op": "store", "data": b.hex(), "origin": "store-mutant:" + w})
     # 3. generated trees, parser-accepted (and rejected) structure-aware mutants
-    for i in range(150 if q else 2500):
+    for i in range(150 if q else 1500):
         t = gen_tree(rng)
         m, post, w = mutate(rng, t)
         if rng.random() < 0.3:
@@ -780,7 +780,7 @@ def run(ctx):
     evaluate(ctx, cases, stats=stats)
     lap("evaluated")
     # 4. model-generated well-formed trees serialised by the *model's* encoder
-    trees = [gen_tree(rng) for _ in range(100 if q else 1500)]
+    trees = [gen_tree(rng) for _ in range(100 if q else 800)]
     outs = common.coq_eval("C18t", IMPORTS, [f"tree_report {coq_tree(t)}" for t in trees], shard_size=25, timeout=1500)
     mcases, mreports = [], {}
     stats["model_trees"] = {"n": len(trees), "not_wf": 0, "python_writer_differs": 0}
